@@ -340,12 +340,15 @@ func rootsFlow(name string, prep func(*world, *harness.MemStore), reinit bool, a
 	return flow{name, prep, func(w *world, st *harness.MemStore) outcome {
 		vclock.Freeze(harness.T0.AddDate(0, 0, advanceDays))
 		defer vclock.Freeze(harness.T0)
+		pre, _ := types.LoadRootCertificates(harness.Ctx, st.Clone())
 		ret, err := rotation.RotateRootCertificates(harness.Ctx, st, nodeenrollment.WithReinitializeRoots(reinit))
 		o := outcome{Err: err, Handed: ret != nil}
 		if err == nil {
 			l, lerr := types.LoadRootCertificates(harness.Ctx, st.Clone())
 			if lerr != nil || !proto.Equal(l, ret) {
 				o.Durable = "the returned root set is not what storage holds"
+			} else if reinit && pre != nil && (bytes.Equal(pre.Current.PublicKeyPkix, ret.Current.PublicKeyPkix) || bytes.Equal(pre.Next.PublicKeyPkix, ret.Next.PublicKeyPkix) || bytes.Equal(pre.Next.PublicKeyPkix, ret.Current.PublicKeyPkix)) {
+				o.Durable = "reinitialization reported success although the stored roots were not replaced"
 			}
 		}
 		return o
